@@ -439,29 +439,87 @@ spec fn all_sec_ok(ps: Seq<Seq<Result<Value, MergeError>>>, cs: int) -> bool {
 }
 spec const MAXHALF: int = 0x7fff_ffff_ffff_ffff;
 
-/// ASSUMED composition of piece A over the sections (R9: the enclosing `for (section, last) in &mut
-/// self.sections` is dropped): `next_section` is applied to every section in order, threading data,
-/// max_data_len, max_sections, all_none; the first error stops the loop.  Every clause below is the
-/// fold of the corresponding proved clause of `next_section`.
-#[verifier::external_body]
-fn accumulate_sections<T: Cell>(sections: &mut Vec<(VIter, Option<Value>)>, data: &mut Vec<T>, current_start: u32, max_data_len: usize, max_sections: usize, all_none: bool, self_error: &mut bool) -> (r: (usize, usize, bool, Option<MergeError>, Ghost<Seq<int>>))
-    requires
-        old(data)@.len() == DATA_SIZE,
-        all_sec_ok(pends(old(sections)@), current_start as int),
-        max_sections as int + total_len(pends(old(sections)@)) < usize::MAX as int,
+// ---------------- the fold of piece A over the sections (proved: `accumulate_sections` in unit.rs.tpl) ----------------
+/// where a section stops in the window ending at `wend`: the first item at or after j that is an error or
+/// a value reaching `wend` (the whole length when there is none)
+spec fn first_stop(p: Seq<Result<Value, MergeError>>, wend: int, j: int) -> int
+    decreases p.len() - j
+{
+    if j < 0 || j >= p.len() { p.len() as int }
+    else if p[j] is Err || p[j]->Ok_0.end >= wend { j }
+    else { first_stop(p, wend, j + 1) }
+}
+#[verifier::opaque]
+spec fn stop_of(p: Seq<Result<Value, MergeError>>, wend: int) -> int { first_stop(p, wend, 0) }
+/// the stop index of every section (a function of what the sections had pending before the window)
+spec fn stops_of(pre: Seq<Seq<Result<Value, MergeError>>>, wend: int) -> Seq<int> {
+    Seq::new(pre.len(), |i: int| stop_of(pre[i], wend))
+}
+proof fn lemma_first_stop(p: Seq<Result<Value, MergeError>>, wend: int, j: int)
+    requires 0 <= j <= p.len(), forall|i: int| 0 <= i < j ==> (#[trigger] p[i]) is Ok && p[i]->Ok_0.end < wend,
+    ensures is_stop(p, first_stop(p, wend, j), wend),
+    decreases p.len() - j,
+{
+    if j < p.len() && !(p[j] is Err || p[j]->Ok_0.end >= wend) { lemma_first_stop(p, wend, j + 1); }
+}
+/// every section has a stop index (the ghost argument `k` of next_section exists)
+proof fn lemma_stop_of(p: Seq<Result<Value, MergeError>>, wend: int)
+    ensures is_stop(p, stop_of(p, wend), wend),
+{
+    reveal(stop_of);
+    lemma_first_stop(p, wend, 0);
+}
+/// a section that stops without an error looks at no more values than it has pending
+proof fn lemma_n_taken_le(p: Seq<Result<Value, MergeError>>, k: int, wend: int)
+    requires is_stop(p, k, wend),
+    ensures 0 <= n_taken(p, k) <= p.len(),
+{ }
+/// the window folds, one section (the only place where they are unfolded)
+proof fn lemma_win_zero(pre: Seq<Seq<Result<Value, MergeError>>>, ks: Seq<int>, d0: Seq<f64>, m0: int, cs: int)
+    ensures win_data(pre, ks, 0, d0, cs) == d0, win_mdl(pre, ks, 0, m0, cs) == m0,
+{
+    reveal_with_fuel(win_data, 1); reveal_with_fuel(win_mdl, 1);
+}
+proof fn lemma_win_step(pre: Seq<Seq<Result<Value, MergeError>>>, ks: Seq<int>, i: int, d0: Seq<f64>, m0: int, cs: int)
+    requires 0 <= i,
     ensures
-        final(data)@.len() == DATA_SIZE, max_data_len <= DATA_SIZE ==> r.0 <= DATA_SIZE,
-        current_start as int + max_data_len as int <= u32::MAX as int ==> current_start as int + r.0 as int <= u32::MAX as int,
-        r.3 is Some ==> *final(self_error),
-        r.3 is None ==> *final(self_error) == *old(self_error),
-        r.3 is None ==> stops_ok(pends(old(sections)@), r.4@, current_start as int + DATA_SIZE as int),
-        r.3 is None ==> pends(final(sections)@) == next_pends(pends(old(sections)@), r.4@),
-        r.3 is None ==> all_sec_ok(pends(final(sections)@), current_start as int + DATA_SIZE as int),
-        r.3 is None ==> c64(final(data)@) == win_data(pends(old(sections)@), r.4@, old(sections)@.len() as int, c64(old(data)@), current_start as int),
-        r.3 is None ==> r.0 as int == win_mdl(pends(old(sections)@), r.4@, old(sections)@.len() as int, max_data_len as int, current_start as int),
-        r.3 is None ==> r.2 == (all_none && none_taken(pends(old(sections)@), r.4@)),
-        r.3 is None ==> r.1 as int <= max_sections as int + total_len(pends(old(sections)@)),
-{ unimplemented!() }
+        win_data(pre, ks, i + 1, d0, cs) == add_vals(win_data(pre, ks, i, d0, cs), taken(pre[i], ks[i]), cs),
+        win_mdl(pre, ks, i + 1, m0, cs) == touch_ends(win_mdl(pre, ks, i, m0, cs), taken(pre[i], ks[i]), cs),
+{
+    reveal_with_fuel(win_data, 1); reveal_with_fuel(win_mdl, 1);
+}
+/// total_len over a prefix: one more section; never more than the whole
+proof fn lemma_total_len_take(ps: Seq<Seq<Result<Value, MergeError>>>, i: int)
+    requires 0 <= i < ps.len(),
+    ensures total_len(ps.subrange(0, i + 1)) == total_len(ps.subrange(0, i)) + ps[i].len(),
+{
+    assert(ps.subrange(0, i + 1).drop_last() =~= ps.subrange(0, i));
+    assert(ps.subrange(0, i + 1).last() == ps[i]);
+}
+proof fn lemma_total_len_mono(ps: Seq<Seq<Result<Value, MergeError>>>, i: int)
+    requires 0 <= i <= ps.len(),
+    ensures 0 <= total_len(ps.subrange(0, i)) <= total_len(ps),
+    decreases ps.len() - i,
+{
+    if i < ps.len() {
+        lemma_total_len_take(ps, i);
+        lemma_total_len_mono(ps, i + 1);
+        lemma_total_len_nonneg(ps.subrange(0, i));
+    } else {
+        assert(ps.subrange(0, i) =~= ps);
+        lemma_total_len_nonneg(ps);
+    }
+}
+proof fn lemma_total_len_nonneg(ps: Seq<Seq<Result<Value, MergeError>>>)
+    ensures 0 <= total_len(ps),
+    decreases ps.len(),
+{
+    if ps.len() > 0 { lemma_total_len_nonneg(ps.drop_last()); }
+}
+/// no section among the first i looked at a value
+spec fn none_taken_upto(pre: Seq<Seq<Result<Value, MergeError>>>, ks: Seq<int>, i: int) -> bool {
+    forall|j: int| 0 <= j < i ==> taken(#[trigger] pre[j], ks[j]).len() == 0
+}
 
 // ---------------- the state invariant of ValueIter, in pieces ----------------
 spec fn opt_v(o: Option<Value>) -> Seq<Value> { if o is Some { seq![o->Some_0] } else { Seq::empty() } }
